@@ -118,7 +118,9 @@ def cases(draw: Any, prop: str, tier: str) -> dict:
         if i > 0 and d.pct(22 if prop == "C06" else 12):
             alias = f"kind{i}/alt{i}"
         nodes.append({"id": i, "parent": parent, "alias": alias, "declare": d.weighted([("add", 55), ("config", 30), ("both", 15)]),
-                      "has_prepare": d.pct(55), "has_start": d.pct(70)})
+                      "has_prepare": d.pct(55), "has_start": d.pct(70),
+                      # where prepare()/start() are defined: on the class itself, on a Component base class, on a plain mixin
+                      "defined": d.weighted([("own", 70), ("base", 15), ("mixin", 15)])})
     # ---- phase nodes and a random linearisation consistent with the built-in order ----
     phases = [(x["id"], ph) for x in nodes for ph in ("prepare", "start") if x["has_" + ph]]
 
@@ -187,6 +189,8 @@ def cases(draw: Any, prop: str, tier: str) -> dict:
             elif kind == "wait":
                 tgt = d.pick(local_avail)
                 w_ = {"op": "wait", "t": tgt["t"], "name": tgt["name"]}
+                if prop == "C06" and d.pct(18):
+                    w_["giveup"] = d.int(1, 3)  # the waiter gives up locally after k ticks (move_on_after)
                 if tgt in available and d.pct(60):
                     # published by another phase: ask early, so that the request tends to come first
                     steps.insert(0 if d.pct(70) else d.int(0, len(steps)), w_)
@@ -344,6 +348,15 @@ class Run:
                 for k in range(st_["n"]):
                     add_resource(object(), f"bst{st_['base'] + k}", types=[RBurst])
                 self.ev("burst", path, n=st_["n"])
+            elif op == "wait" and st_.get("giveup"):
+                b = self.ev("wait-begin", path, t_=st_["t"], name=st_["name"], giveup=st_["giveup"])
+                obj = None
+                with anyio.move_on_after(st_["giveup"]) as scope:
+                    obj = await get_resource(RTYPES[st_["t"]], st_["name"])
+                if scope.cancelled_caught:
+                    self.ev("wait-gaveup", path, t_=st_["t"], name=st_["name"], begin=b["s"])
+                else:
+                    self.ev("wait-end", path, t_=st_["t"], name=st_["name"], begin=b["s"], obj=id(obj), giveup=st_["giveup"])
             elif op == "wait":
                 b = self.ev("wait-begin", path, t_=st_["t"], name=st_["name"])
                 try:
@@ -433,10 +446,19 @@ class Run:
                 run.ev(f"{phase}-end", path, begin=b["s"])
             return fn
 
+        phases: dict[str, Any] = {}
         if node["prepare"] is not None:
-            ns["prepare"] = phase_fn("prepare", node["prepare"])
+            phases["prepare"] = phase_fn("prepare", node["prepare"])
         if node["start"] is not None:
-            ns["start"] = phase_fn("start", node["start"])
+            phases["start"] = phase_fn("start", node["start"])
+        defined = node.get("defined", "own")
+        if defined == "base" and phases:
+            base = type(f"Base{node['id']}", (Component,), phases)
+            return type(f"Comp{node['id']}", (base,), ns)
+        if defined == "mixin" and phases:
+            mixin = type(f"Mixin{node['id']}", (), phases)
+            return type(f"Comp{node['id']}", (mixin, Component), ns)
+        ns.update(phases)
         return type(f"Comp{node['id']}", (Component,), ns)
 
     def note_escape(self, exc: BaseException) -> None:
@@ -684,6 +706,16 @@ class Judge:
                 b = "false-wakeup" if nf == "ResourceNotFound" else "startup-failed:" + type(exc).__name__
                 self.disc("wait", b, f"start_component raised {short_exc(exc)} (cause {cause!r})")
             return
+        for g in [e for e in tr if e["k"] == "wait-gaveup"]:
+            gb = tr[g["begin"]]
+            match = [p for p in pubs if g["t_"] in p["types"] and p["name"] == g["name"]]
+            first_t = min((p["t"] for p in match), default=float("inf"))
+            deadline = gb["t"] + gb["giveup"]
+            if first_t < deadline:
+                self.disc("wait", "lost-wakeup:gave-up", f"{g['p']!r} waited for ({g['t_']}, {g['name']!r}) from t={gb['t']} for {gb['giveup']} ticks and gave up, "
+                          f"although a matching publication happened at t={first_t}")
+            elif g["t"] != deadline:
+                self.disc("wait", "giveup-time", f"{g['p']!r} gave up at t={g['t']}, its own deadline was t={deadline}")
         for w in [e for e in tr if e["k"] == "wait-end"]:
             wb = tr[w["begin"]]
             match = [p for p in pubs if w["t_"] in p["types"] and p["name"] == w["name"]]
